@@ -42,8 +42,10 @@ func Verif_H17Close() {
 		// at any scheduling point, so cycles are at arbitrary points when Close arrives
 		vrt.Assert(s.Put(keys[1], []byte{0xC3}) == nil, "put-no-error")
 		vrt.Assert(s.Close() == nil, "close-no-error")
-		vrt.SchedEnd()
+		// still inside the scheduling window: what a goroutine that outlived Close does next
+		// is part of the recorded schedule, so a counterexample replays deterministically
 		checkQuiet(dir, g0, f0, "after-close")
+		vrt.SchedEnd()
 		vrt.Assert(s.Close() == nil, "second-close-is-a-no-op")
 		checkQuiet(dir, g0, f0, "after-second-close")
 		vrt.Cover("h17-close-vs-background")
